@@ -661,7 +661,8 @@ __offs(struct zif_s z[static 1U], int32_t t)
 		min = 0;
 		max = zif_ntrans(z);
 	} else if (t >= z->cache.next) {
-		min = z->cache.trno + 1;
+		/* the range before the first transition has trno 0 as well */
+		min = z->cache.trno + (z->cache.prev > INT_MIN);
 		max = zif_ntrans(z);
 	} else if (t < z->cache.prev) {
 		max = z->cache.trno;
